@@ -9,6 +9,6 @@ mkdir -p "$TMP/examples" && cp -r /repo/examples/. "$TMP/examples/" 2>/dev/null
 (cd "$TMP" && patch -p1 -s < "$PATCH") || { echo "patch failed"; rm -rf "$TMP"; exit 2; }
 HERE="$(cd "$(dirname "$0")/.." && pwd)"
 for P in "$@"; do
-  (cd "$HERE" && CIJ_REPO="$TMP" PYTHONPATH="$TMP" ./check "$P" --tier "${TIER:-quick}" > "$TMP/out.txt" 2>&1; echo "exit=$?"; grep -E "^(VIOLATION|FAILED-OBLIGATION|KNOWN|UNDECIDED|CHECKER-ERROR|UNCONFIRMED|C[0-9]+ tier)" "$TMP/out.txt" | cut -c1-300)
+  (cd "$HERE" && VERIF_EVIDENCE_DIR="$TMP/evidence" CIJ_REPO="$TMP" PYTHONPATH="$TMP" ./check "$P" --tier "${TIER:-quick}" > "$TMP/out.txt" 2>&1; echo "exit=$?"; grep -E "^(VIOLATION|FAILED-OBLIGATION|KNOWN|UNDECIDED|CHECKER-ERROR|UNCONFIRMED|C[0-9]+ tier)" "$TMP/out.txt" | cut -c1-300)
 done
 rm -rf "$TMP"
